@@ -1623,6 +1623,24 @@ find_modifier(const char *s, const char *mod)
 }
 
 /**
+ * @brief count a term that causes DNS queries
+ * @param queries number of such terms seen during this check_host()
+ * @return if the term must not be evaluated
+ * @retval 0 the term may be evaluated
+ * @retval 1 the limit of RfC 7208, section 4.6.4 is exceeded
+ *
+ * This must be called before the term is evaluated, so that not more than
+ * 10 terms (mechanisms a, mx, ptr, exists, include, and the redirect modifier)
+ * are evaluated regardless how include and redirect refer to each other.
+ */
+static int
+spf_dnsterm_limit(unsigned int *queries)
+{
+	*queries += 1;
+	return (*queries > 10);
+}
+
+/**
  * look up SPF records for domain
  *
  * @param domain no idea what this might be for
@@ -1731,11 +1749,6 @@ spflookup(const char *domain, unsigned int *queries)
 	while (*token && (result == SPF_NONE)) {
 		size_t mechlen;
 
-		if (*queries > 10) {
-			result = SPF_FAIL;
-			break;
-		}
-
 		while (WSPACE(*token)) {
 			token++;
 		}
@@ -1772,25 +1785,31 @@ spflookup(const char *domain, unsigned int *queries)
 		if ( (mechlen = match_mechanism(token, "mx", ":/")) != 0) {
 			token += mechlen;
 
-			result = spfmx(domain, token);
+			if (spf_dnsterm_limit(queries))
+				result = SPF_FAIL;
+			else
+				result = spfmx(domain, token);
 			mechanism = "MX";
-			*queries += 1;
 		} else if ( (mechlen = match_mechanism(token, "ptr", ":/")) != 0) {
 			token += mechlen;
 
-			result = spfptr(domain, token);
+			if (spf_dnsterm_limit(queries))
+				result = SPF_FAIL;
+			else
+				result = spfptr(domain, token);
 			mechanism = "PTR";
-			*queries += 1;
 		} else if ( (mechlen = match_mechanism(token, "exists", ":")) != 0) {
 			token += mechlen;
 
 			if (*token == ':') {
-				result = spfexists(domain, ++token);
+				if (spf_dnsterm_limit(queries))
+					result = SPF_FAIL;
+				else
+					result = spfexists(domain, ++token);
 				mechanism = "exists";
 			} else {
 				result = SPF_PERMERROR;
 			}
-			*queries += 1;
 		} else if ( (mechlen = match_mechanism(token, "all", "")) != 0) {
 			token += mechlen;
 			result = SPF_PASS;
@@ -1798,9 +1817,11 @@ spflookup(const char *domain, unsigned int *queries)
 		} else if ( (mechlen = match_mechanism(token, "a", ":/")) != 0) {
 			token += mechlen;
 
-			result = spfa(domain, token);
+			if (spf_dnsterm_limit(queries))
+				result = SPF_FAIL;
+			else
+				result = spfa(domain, token);
 			mechanism = "A";
-			*queries += 1;
 		} else if ( (mechlen = match_mechanism(token, "ip4", ":/")) != 0) {
 			token += mechlen;
 
@@ -1832,8 +1853,9 @@ spflookup(const char *domain, unsigned int *queries)
 				} else {
 					if ((ip4l >= 0) || (ip6l >= 0)) {
 						result = SPF_PERMERROR;
+					} else if (spf_dnsterm_limit(queries)) {
+						result = SPF_FAIL;
 					} else {
-						*queries += 1;
 						result = spflookup(n, queries);
 					}
 					free(n);
@@ -1968,8 +1990,9 @@ spflookup(const char *domain, unsigned int *queries)
 		if (result == 0) {
 			if ((i4 != -1) || (i6 != -1)) {
 				result = SPF_PERMERROR;
+			} else if (spf_dnsterm_limit(queries)) {
+				result = SPF_FAIL;
 			} else {
-				*queries += 1;
 				/* RfC 7208, section 6.2
 				 * In contrast, when executing a "redirect" modifier, an "exp"
 				 * modifier from the original domain MUST NOT be used.
